@@ -112,8 +112,10 @@ theorem C02_loop_connect_from_datagram (sz : Sizes) (C : Crypto) (s : Srv) (tq t
   generalize hr1 : handleItems sz C tq s batch acts = r1 at h
   obtain ⟨s1, acts1, e1⟩ := r1
   simp only at h
-  have h2 := sweepConns_no_connect C sz ts s1 s1.conns (nextAct acts1).2 id a tok
-  generalize sweepConns C sz ts s1 s1.conns (nextAct acts1).2 = r2 at h h2
+  have h2 := sweepConns_no_connect C sz ts (if (nextAct acts1).1 = HAct.kick then kickAll s1 else s1)
+    (if (nextAct acts1).1 = HAct.kick then kickAll s1 else s1).conns (nextAct acts1).2 id a tok
+  generalize sweepConns C sz ts (if (nextAct acts1).1 = HAct.kick then kickAll s1 else s1)
+    (if (nextAct acts1).1 = HAct.kick then kickAll s1 else s1).conns (nextAct acts1).2 = r2 at h h2
   obtain ⟨s2, acts2, e2⟩ := r2
   simp only at h h2
   have h3 := sweepTemps_no_connect C sz ts s2 s2.temps id a tok
